@@ -1,19 +1,9 @@
 //! `vf` — verification harness for BurntSushi/fst (property-based testing
 //! and fuzzing). One sub-command per property; see /verif/DESIGN.md.
 
-#[macro_use]
-mod engine;
-mod alloc;
-mod aut;
-mod crcref;
-mod frozen_common_inputs;
-mod refcodec;
-mod sinks;
-mod gen;
-mod oracle;
-mod props;
 
-use engine::{Engine, Tier};
+use vf::engine::{self, Engine, Tier};
+use vf::{alloc, props};
 
 #[global_allocator]
 static GLOBAL: alloc::Counting = alloc::Counting;
